@@ -16,6 +16,10 @@ func getBufsize() int {
 		if err != nil {
 			Failf("Could not convert value of SCIPIPE_BUFSIZE to integer: %s\n", bufSizeStr)
 		}
+		if bufSize < 1 {
+			// Unbuffered channels between processes with several ports lead to deadlocks
+			Failf("SCIPIPE_BUFSIZE must be at least 1, but was: %s\n", bufSizeStr)
+		}
 		return bufSize
 	}
 	return BUFSIZE
